@@ -281,8 +281,12 @@ class Body:
                     t = s
                     a = Atom("call", t["f"], bb, proj, t)
                     out[a.key()] = a
-                    if t["args"] and (PASS_THROUGH.match(t["f"]) or PASS_THROUGH.match(t["fd"])
-                                      or (deep and DERIVED_THROUGH.match(t["f"]))):
+                    if deep and t["args"] and re.search(r"::(new|new_or_panic|from_[a-z_]+)$", t["f"]):
+                        # constructor-like call: the value is built from all its arguments
+                        for a2 in t["args"]:
+                            push_op(a2, ())
+                    elif t["args"] and (PASS_THROUGH.match(t["f"]) or PASS_THROUGH.match(t["fd"])
+                                        or (deep and DERIVED_THROUGH.match(t["f"]))):
                         # strip variant/field projections that belong to the wrapper (Continue/Break/Some/Ok…)
                         rest = tuple(x for x in proj if not x.startswith("@") and x not in (".0",))
                         push_op(t["args"][0], rest)
